@@ -151,7 +151,7 @@ func (e *Engine) callStatic(fr *Frame, st *State, fn *ssa.Function, binds []Val,
 		target = fn.Origin()
 	}
 	if c := e.P.ByFunc[target]; c != nil {
-		if c.Inline || fr.spec {
+		if c.Inline || fr.spec && !c.Pure {
 			if len(fn.Blocks) > 0 {
 				return e.inline(fr, st, fn, binds, args, pos)
 			}
@@ -180,6 +180,9 @@ func (e *Engine) callStatic(fr *Frame, st *State, fn *ssa.Function, binds []Val,
 		return e.conservativeCall(fr, st, fn, args, pos)
 	}
 	// library function without a model
+	if fn.Pkg != nil && purePkgs[fn.Pkg.Pkg.Path()] || fn.Pkg == nil && fn.Origin() != nil && fn.Origin().Pkg != nil && purePkgs[fn.Origin().Pkg.Pkg.Path()] {
+		return e.pureLibCall(fr, st, fn, full, args)
+	}
 	if valueOnly(sig) {
 		e.trust("library function " + full + " is a pure, deterministic function of its arguments")
 		return e.uninterpCall("lib_"+sanitize(full), T{}, args, sig)
@@ -473,10 +476,10 @@ func (e *Engine) evalModifies(fr *Frame, gen *ssa.Function, args []Val, st *Stat
 					out = append(out, c)
 					continue
 				}
-				out = append(out, modItem{nf.vals[mi.X], mi.X.Type()})
+				out = append(out, modItem{e.val(nf, mi.X), mi.X.Type()})
 				continue
 			}
-			out = append(out, modItem{nf.vals[v], v.Type()})
+			out = append(out, modItem{e.val(nf, v), v.Type()})
 		}
 	}
 	return out
@@ -497,6 +500,7 @@ func (e *Engine) havocModifies(fr *Frame, st *State, c *Contract, args []Val) {
 		e.applyModItems(st, items, func(h string, loc func(x T) T) {
 			// caller side: heap h is replaced by a fresh array equal to the old one outside the footprint
 			old := e.heap(st, h, e.heapSort[h])
+			e.recWild(h)
 			nv := e.fresh(old.Sort, "hv_"+h)
 			if loc != nil {
 				e.emit(fmt.Sprintf("(assert (forall ((x Ref)) (! (=> (not %s) (= (select %s x) (select %s x))) :pattern ((select %s x)))))", loc(T{"x", sRef}).S, nv.S, old.S, nv.S))
@@ -526,6 +530,8 @@ func (e *Engine) applyModItems(st *State, items []Val, onHeap func(h string, inF
 			fp.everything = true
 		case strings.HasPrefix(kind, "heap("):
 			fp.add(strings.TrimSuffix(strings.TrimPrefix(kind, "heap("), ")"), nil)
+		case strings.HasPrefix(kind, "struct("):
+			e.structFootprint(fp, strings.TrimSuffix(strings.TrimPrefix(kind, "struct("), ")"))
 		case kind == "obj" || kind == "loc" || kind == "elems":
 			it := items[i].(modItem)
 			i++
@@ -649,4 +655,80 @@ func (e *Engine) objFootprint(st *State, fp *footprint, r T, pt types.Type) {
 	hn, hs := e.pointeeHeap(pt)
 	e.heapSort[hn] = hs
 	fp.add(hn, func(x T) T { return tEq(x, r) })
+}
+
+// purePkgs: library packages whose exported functions neither read nor write program state
+// (other than through their arguments, which they do not modify).
+var purePkgs = map[string]bool{"time": true, "strings": true, "strconv": true, "unicode": true, "unicode/utf8": true, "path/filepath": true, "path": true, "math": true, "regexp": true, "slices": false}
+
+// pureLibCall: results are an uninterpreted function of the arguments when all of them are
+// scalars (functional consistency is then sound); otherwise fresh values.
+func (e *Engine) pureLibCall(fr *Frame, st *State, fn *ssa.Function, full string, args []Val) Val {
+	e.trust("library package " + fn.String()[:strings.LastIndex(fn.String(), ".")] + ": functions are side-effect free")
+	sig := fn.Signature
+	scalar := true
+	for _, a := range args {
+		t, ok := a.(T)
+		if !ok || !(t.Sort == sInt || t.Sort == sStr || t.Sort == sBool || t.Sort == sBV || t.Sort == sReal) {
+			scalar = false
+		}
+	}
+	if full == "time.Now" {
+		scalar = false
+	}
+	if scalar && sig.Results().Len() > 0 {
+		r := e.uninterpCall("lib_"+sanitize(full), T{}, args, sig)
+		for i, rv := range unpackResults(r, sig.Results().Len()) {
+			e.assumeTypeInv(st, rv, sig.Results().At(i).Type())
+		}
+		return r
+	}
+	return e.freshOfType(st, sig.Results(), "lib_"+fn.Name())
+}
+
+// structFootprint: every field heap of the named struct type (all objects of that type).
+func (e *Engine) structFootprint(fp *footprint, name string) {
+	var t types.Type
+	pkgPath := ""
+	if e.topContract != nil {
+		pkgPath = e.topContract.PkgPath
+	}
+	if e.cur != nil && e.cur.fn != nil && e.cur.fn.Pkg != nil {
+		pkgPath = e.cur.fn.Pkg.Pkg.Path()
+	}
+	if i := strings.LastIndex(name, "."); i >= 0 {
+		for path, pk := range e.P.AllPkgs {
+			if pk.Name == name[:i] || path == name[:i] {
+				if o := pk.Types.Scope().Lookup(name[i+1:]); o != nil {
+					t = o.Type()
+				}
+			}
+		}
+	} else if pk := e.P.AllPkgs[pkgPath]; pk != nil {
+		if o := pk.Types.Scope().Lookup(name); o != nil {
+			t = o.Type()
+		}
+	}
+	if t == nil {
+		e.unsupported("modifies struct(%s): type not found", name)
+	}
+	var add func(t types.Type)
+	add = func(t types.Type) {
+		s, ok := isStruct(t)
+		if !ok {
+			return
+		}
+		skey := e.typeKey(t)
+		for i := 0; i < s.NumFields(); i++ {
+			ft := s.Field(i).Type()
+			if _, ok := isStruct(ft); ok && !e.isIntrinsicStruct(ft) {
+				add(ft)
+				continue
+			}
+			hn := e.fieldHeapName(skey, s, i)
+			e.heapSort[hn] = arraySort(sRef, e.sortOf(ft))
+			fp.add(hn, nil)
+		}
+	}
+	add(t)
 }
